@@ -131,14 +131,15 @@ fn check(c: &Case) -> Outcome {
                     match m % 8 {
                         0 => {}
                         1 => { let p = *pos as usize % (8 * s2.len()); s2[p / 8] ^= 1 << (p % 8); }
-                        2 => { s2.pop(); }
+                        2 => { if *val % 2 == 0 { s2.pop(); } else { let l = *pos as usize % s2.len(); s2.truncate(l); } } // one byte short, or cut anywhere
                         3 => { s2.push(*val); }
                         4 => { m2.push(*val); }
                         5 => { // leaf index replaced
-                            let q = (*val as u32) % 40; s2[0..4].copy_from_slice(&q.to_be_bytes());
+                            if *val < 160 { let q = (*val as u32) % 40; s2[0..4].copy_from_slice(&q.to_be_bytes()); }
+                            else { let b = *pos as usize % 32; s2[b / 8] ^= 1 << (b % 8); } // any single bit of the 32-bit q word
                         }
                         6 => { // type words
-                            let off = if *val % 2 == 0 { 4 } else { 4 + par.ots_siglen() }; s2[off + 3] ^= 1 + (*val % 7);
+                            let off = if *val % 2 == 0 { 4 } else { 4 + par.ots_siglen() }; if *val % 3 == 0 { s2[off + 3] ^= 1 + (*val % 7); } else { let b = *pos as usize % 32; s2[off + b / 8] ^= 1 << (b % 8); } // any single bit of a type word
                         }
                         _ => { // a path node or y[i] replaced by another signature's
                             let (o, _) = &sigs[(*k as usize + 1) % sigs.len()];
@@ -181,7 +182,7 @@ impl Property for C16 {
         "C16"
     }
     fn rule(&self) -> String {
-        "Each case = parameter set (4) + key generated from an RNG tape + a history of sign(msg, randomizer tape) and verify(signature k under a mutation: none, bit flip anywhere, truncated, extended, other message, leaf index replaced, type words changed, 8 bytes spliced from another signature) followed by a burst of plain sign calls (so that most histories reach and pass the 32-leaf limit). Oracle: a model counter (k-th successful sign carries q = k-1; calls after the 32nd return None and leave the Debug rendering of the key unchanged; state advanced before the signature is returned), byte equality with the reference RFC 8554 signature for (I, SEED, q, C, msg), and agreement of verify with the reference verifier on every presented string. Every history is non-trivial; tags: key_exhausted, sign_after_exhaustion, verify_mutated. distinct = distinct case hash.".into()
+        "Each case = parameter set (4) + key generated from an RNG tape + a history of sign(msg, randomizer tape) and verify(signature k under a mutation: none, bit flip anywhere, truncated, extended, other message, leaf index replaced or one of its 32 bits flipped, any bit of a type word changed, 8 bytes spliced from another signature) followed by a burst of plain sign calls (so that most histories reach and pass the 32-leaf limit). Oracle: a model counter (k-th successful sign carries q = k-1; calls after the 32nd return None and leave the Debug rendering of the key unchanged; state advanced before the signature is returned), byte equality with the reference RFC 8554 signature for (I, SEED, q, C, msg), and agreement of verify with the reference verifier on every presented string. Every history is non-trivial; tags: key_exhausted, sign_after_exhaustion, verify_mutated. distinct = distinct case hash.".into()
     }
     fn shard_size(&self) -> u64 {
         1
